@@ -461,19 +461,33 @@ C19Event(o, k, b) ==
              /\ AddedShapeOK(before, after, <<added[1].id>>)
              /\ \A a \in AllIds(after) : a \in DOMAIN added[1].alternativesValues /\ added[1].alternativesValues[a] = ValOfAlt(after, a, added[1].id)
              /\ \A a \in AllIds(before) : \A c \in C : ValOfAlt(after, a, c) = ValOfAlt(before, a, c)
-             (* value = mid-range + half-range x (a weighted mean of the mapped differences) of the reference criterion *)
+             (* value = mid-range + half-range x (importance-weighted mean of the mapped differences), the range  *)
+             (* being the reference criterion's.  Importances come from the method's listener on the state the   *)
+             (* bias started from; if the smallest is below 0.01 all are shifted up so that it becomes 0.01.     *)
              /\ \E rc \in C :
-                  LET rg == RangeOf(before, rc) IN
-                  \A a \in AllIds(before) :
+                  LET rg == RangeOf(before, rc)
+                      d == rg.max - rg.min
+                      m == Method(o)
+                      raw == [c \in C |-> IF m \in {"weightedSum", "choquetIntegral"} THEN Imp(m, before, c) \div u ELSE Imp(m, before, c)]
+                      mn == SetMin({raw[c] : c \in C})
+                      floor01 == u \div 100
+                      sh == IF mn < floor01 THEN floor01 - mn ELSE 0
+                      S == SumOver(C, LAMBDA c : raw[c] + sh)
+                  IN \A a \in AllIds(before) :
                      LET lo == SetMin({coefOf(a, c) : c \in C})
                          hi == SetMax({coefOf(a, c) : c \in C})
                          w == ValOfAlt(after, a, added[1].id)
-                         d == rg.max - rg.min
                          t == 4 * Slack + (2 * NAbs(d)) \div u + 2
                          x1 == rg.min + rg.max + (d * lo) \div u
                          x2 == rg.min + rg.max + (d * hi) \div u
+                         (* exact form where the numbers stay small: weighted mean q of the mapped differences *)
+                         small == S > 0 /\ S < 200000 /\ \A c \in C : NAbs(coefOf(a, c)) < 8000 /\ raw[c] + sh >= 0
+                         q == SumOver(C, LAMBDA c : (raw[c] + sh) * coefOf(a, c)) \div S
+                         xq == rg.min + rg.max + (d * q) \div u
+                         tq == t + (3 * NAbs(d)) \div u + (NAbs(d) * (NAbs(hi) + NAbs(lo) + 8)) \div (64 * u)
                      IN /\ 2 * w >= Bound2(ap, rg, u, NMin(x1, x2)) - t
                         /\ 2 * w <= Bound2(ap, rg, u, NMax(x1, x2)) + t
+                        /\ ((small /\ ExactBefore(o, k)) => Near(2 * w, Bound2(ap, rg, u, xq), tq))
        IN (IF refOK THEN {} ELSE {BFail("C19", "reference-point", "")})
           \cup (IF scalingOK THEN {} ELSE {BFail("C19", "scaling", "")})
           \cup (IF ~diffsOK THEN {BFail("C19", "differences-shape", "")}
